@@ -2825,6 +2825,20 @@ def c03g(F, R):
             R.bad("is_part_of_some_function|unextractable", f"UNEXTRACTABLE: is_part_of_some_function ({ex})", g["sp"])
 
 
+def _single_register_mask(F, e, depth=0):
+    """is `e` the mask with exactly the bit of one register: `1 << r.to_num()`, or a call of a helper whose body is that for its parameter?"""
+    e = peel(e)
+    while e.get("k") == "Block" and not e.get("stmts") and e.get("expr") is not None:
+        e = peel(e["expr"])
+    if e.get("k") == "Binary" and e["op"] == "Shl" and lit_value(e["a"]) == 1 and mentions_call(e["b"], "to_num"):
+        return True
+    if e.get("k") in ("Call", "MethodCall") and depth < 2:
+        g = F.fns.get(callee_of(e) or "")
+        if g and "hir" in g and "register_set" in g["path"] and len(g["hir"]["params"]) in (1, 2):
+            return _single_register_mask(F, g["hir"]["value"], depth + 1)
+    return False
+
+
 @rule("C01", "C01.q.set-algebra-is-what-its-operators-say", floor=8)
 @rule("C02", "C02.n.set-algebra-is-what-its-operators-say", floor=8)
 def c02n(F, R):
@@ -2866,7 +2880,7 @@ def c02n(F, R):
                     return {"BitAnd": x & y, "BitOr": x | y, "BitXor": x ^ y}[e["op"]]
                 if k == "Unary" and e["op"] == "Not":
                     return 1 - ev(e["a"], a, b)
-                if k == "Binary" and e["op"] == "Shl" and lit_value(e["a"]) == 1 and mentions_call(e["b"], "to_num"):
+                if _single_register_mask(F, e):
                     return b
                 if k == "Struct":
                     fs = [x for x in e["fields"] if x["name"] == "registers"]
@@ -2915,7 +2929,7 @@ def c02n(F, R):
                 return ev2(e["stmts"][0].get("e") or {}, a, b)
             if k == "Field" and e["name"] == "registers" and ekey(e["e"]).lstrip("&*") == "self":
                 return a
-            if k == "Binary" and e["op"] == "Shl" and lit_value(e["a"]) == 1 and mentions_call(e["b"], "to_num"):
+            if _single_register_mask(F, e):
                 return b
             if k == "Binary" and e["op"] in ("BitAnd", "BitOr", "BitXor"):
                 x, y = ev2(e["a"], a, b), ev2(e["b"], a, b)
